@@ -649,6 +649,8 @@ fn main() {
             std::panic::set_hook(Box::new(move |info| {
                 PANIC_POS.store(rtmock::alloc::LOGLEN.load(SeqCst), SeqCst);
                 PANIC_NEV.store(NEV.load(SeqCst), SeqCst);
+                // answers scripted for the panicking action must not leak into the intrinsics that unwinding runs
+                ANS.with(|a| if let Ok(mut a) = a.try_borrow_mut() { a.clear() });
                 if !quiet_hook { eprintln!("{info}"); }
             }));
         }
